@@ -102,10 +102,7 @@ Proof.
   - inversion H; subst. exact K1.
 Qed.
 Lemma chain_nonneg s c l ok : chain s c = (l, ok) -> Forall (fun x => 0 <= x) l.
-Proof.
-  intros H. apply Forall_forall. intros x Hx. unfold chain in H.
-  pose proof (chain_go_in_fat (length (s_fat s)) (ft s) (dmax s) (s_fat s) c x) as Hc. rewrite H in Hc. cbn [fst] in Hc. destruct (Hc Hx). lia.
-Qed.
+Proof. intros H. eapply Forall_impl; [|exact (chain_members_bounded _ _ _ _ H)]. intros x Hx. cbv beta in Hx. lia. Qed.
 Lemma K_free_chain s c s' : free_chain s c = Ok s' -> K s s'.
 Proof.
   unfold free_chain. destruct (s_ro s); [discriminate|]. unfold chain_all. destruct (chain s c) as [l ok] eqn:Ec. destruct ok; [|discriminate]. cbn [bind].
@@ -299,7 +296,16 @@ Theorem history_chains_inside s s' c : fb s -> clos_refl_trans st mstep s s' -> 
 Proof.
   intros Hs H Hc. destruct (history_K _ _ H) as (A1 & A2 & A3). destruct (A3 Hs) as [Hv Hb].
   assert (Em : max_cluster s' = max_cluster s) by (unfold max_cluster, count_of_clusters, total_sectors; rewrite A1, A2; reflexivity).
-  unfold chain. rewrite <- Em. apply bounded_chain; [exact Hv|exact Hb|lia].
+  destruct (chain s' c) as [l ok] eqn:E. cbn [fst]. eapply Forall_impl; [|exact (chain_members_bounded _ _ _ _ E)].
+  intros x Hx. cbv beta in Hx. destruct (vt_consts _ Hv) as (Hmin & _). lia.
+Qed.
+(** (since D38 the follower itself refuses every cluster number beyond the last cluster, so the conclusion no longer needs the
+    invariant; [fb] remains the statement about the LINKS stored in the table, which is what an independent reader follows) *)
+Theorem history_links_bounded s s' : fb s -> clos_refl_trans st mstep s s' -> bounded (ft s) (dmax s) (max_cluster s) (s_fat s').
+Proof.
+  intros Hs H. destruct (history_K _ _ H) as (A1 & A2 & A3). destruct (A3 Hs) as [Hv Hb].
+  assert (Em : max_cluster s' = max_cluster s) by (unfold max_cluster, count_of_clusters, total_sectors; rewrite A1, A2; reflexivity).
+  rewrite <- Em, <- (dmax_geo s s' A1 A2). unfold ft in *. rewrite <- A2. exact Hb.
 Qed.
 
 (** a decidable sufficient check for concrete tables *)
